@@ -440,7 +440,17 @@ pub fn run(ctx: &Ctx) -> Result<Run, String> {
     let sp = space(ctx.tier);
     let n = sp.len();
     let cfg = IsoConfig { prop: "C18".into(), mode: "diff".into(), tier: ctx.tier.name(), workers: ctx.threads, segment: (n / (ctx.threads * 4)).max(50), every: 25, stack_mb: 8 };
-    let stats = iso::run(&sp, &cfg)?;
+    let mut stats = iso::run(&sp, &cfg)?;
+    {
+        // histories through the trait on one long-lived authenticator, incl. trait calls dropped
+        // while the user step is pending, against fresh authenticators (in-process: termination of
+        // single trait calls is settled by the isolated sweep above)
+        use super::inst::{self, IOp};
+        let alphabet = [IOp::TraitMake, IOp::TraitGet { who: 0 }, IOp::TraitGet { who: 2 }, IOp::Cancelled(2), IOp::Cancelled(3), IOp::Make { rk: true, prf: false }, IOp::Get { who: 0, prf: false, silent: false }, IOp::Info];
+        let st = inst::sweep(&alphabet, ctx.tier.pick(3, 4), &[0, 1], ctx.threads, "instance");
+        stats.count("instance_differential_histories", st.evaluations);
+        stats.merge(st);
+    }
     let mut run = Run::from_stats(
         "model_checking",
         "differential enumeration: every configuration of the C04 product at CTAP2 level (operation, rk/up/uv, verification capability, validation outcome, pin-auth) x 4 store contents x {contract store, Arc<Mutex<MemoryStore>>} x PRF extension on/off x descriptor type {public-key, unknown}, store failures of find / save / update with seven status *values* (incl. Ctap1(Success), which shares byte 0x00 with Ctap2(Ok)), and getInfo for every capability combination, plus all pairs (thorough: triples) of operations on ONE authenticator with a capability change in between (verification / presence / store capability), each run once through the inherent method and once through <Authenticator as Ctap2Api> on identically seeded authenticators inside isolated worker processes (8 MiB stack, 30 s watchdog); compared: result (status byte or full response incl. RFC 6979 signature bytes; fresh ids/keys normalised), store snapshot, store/user-validation call log. Non-trivial = distinct case whose direct call reached a verdict",
@@ -453,6 +463,9 @@ pub fn run(ctx: &Ctx) -> Result<Run, String> {
 }
 
 pub fn replay(_ctx: &Ctx, case: &Value) -> Result<Vec<Finding>, String> {
+    if let Some(fs) = super::inst::replay(case, "instance") {
+        return Ok(fs);
+    }
     // replay in an isolated worker too: the single-case sub-space of the thorough enumeration
     // (a superset of the quick one)
     let all = space(Tier::Thorough);
